@@ -27,7 +27,7 @@ RULE = (
     "non-trivial = nested tree with >= 2 leaves of different rank, or batch step counts differing by >= 2x; distinct by JSON hash"
 )
 ASSUMPTIONS = ["jacobian_materialize(); IWP priors; x64"]
-REQUIRED_LABELS = ["rel:pytree", "rel:permutation", "rel:jit", "rel:vmap", "fact:dense", "fact:isotropic", "fact:blockdiag", "adaptive", "fixed_grid", "vmap:steps_differ", "leaf:matrix"]
+REQUIRED_LABELS = ["rel:pytree", "rel:permutation", "rel:jit", "rel:vmap", "fact:dense", "fact:isotropic", "fact:blockdiag", "adaptive", "fixed_grid", "vmap:steps_differ", "leaf:matrix", "rel:jit_sequence"]
 MAX_INCONCLUSIVE = 0.3
 
 Point = collections.namedtuple("Point", ["p", "q"])
@@ -42,6 +42,17 @@ TEMPLATES = {
     6: [("tuple_mat", [(2, 2), (2,)]), ("bare", [(2, 3)]), ("rank3", [(2, 1, 2), (2,)]), ("nested", [(3,), (), (2, 1, 1)]), ("bare", [(1, 3, 2)]),
         ("dict_scalar_vec", [(2,), (2, 2)])],
 }
+
+
+# jit_sequence: two problems of equal size whose states differ in structure; ONE jitted solve is called on the first, then on the second
+SEQ_PAIRS = [
+    [("bare", [(2, 3)]), ("bare", [(3, 2)])],
+    [("bare", [(6,)]), ("bare", [(2, 3)])],
+    [("dict_scalar_vec", [(2,), (2, 2)]), ("dict_scalar_vec", [(2, 2), (2,)])],
+    [("tuple_mat", [(2, 2), (2,)]), ("dict_scalar_vec", [(2, 2), (2,)])],
+    [("bare", [(1, 6)]), ("bare", [(6, 1)])],
+    [("rank3", [(2, 1, 2), (2,)]), ("rank3", [(1, 2, 2), (2,)])],
+]
 
 
 def _pack(name, shapes, v):
@@ -89,7 +100,7 @@ def strategy(ctx):
     @st.composite
     def one(draw):
         cfg = draw(st.sampled_from(pool))
-        rel = draw(st.sampled_from(["pytree", "permutation", "jit", "vmap"]))
+        rel = draw(st.sampled_from(["pytree", "permutation", "jit", "vmap", "jit_sequence"]))
         case = draw(ssmcase.adaptive_values(cfg)) if cfg["adaptive"] or rel == "vmap" else draw(ssmcase.values(cfg, hmin=0.05, hmax=0.5))
         case["tc_mode"] = "arbitrary"  # O(1) residuals: the calibrated scales are then well conditioned
         case["rel"] = rel
@@ -103,6 +114,8 @@ def strategy(ctx):
         case["perm"] = draw(st.permutations(list(range(d))))
         case["fracs"] = sorted(draw(st.lists(st.floats(0.05, 0.95), min_size=2, max_size=2, unique=True)))
         case["batch"] = draw(st.lists(gen.exponent(-0.3, 0.8), min_size=2, max_size=4))
+        if rel == "jit_sequence":
+            case["seq"] = dict(pair=draw(st.integers(0, len(SEQ_PAIRS) - 1)), swap=draw(st.booleans()), vals=draw(gen.vec(12, gen.nonzero_quarter(-4, 4))))
         return case
 
     return one()
@@ -186,6 +199,8 @@ def check_case(case):
     rel, fact, n, d = case["rel"], cfg["fact"], cfg["n"], cfg["d"]
     adaptive = bool(cfg["adaptive"]) or rel == "vmap"
     res.label(f"rel:{rel}", f"fact:{fact}", "adaptive" if adaptive else "fixed_grid", f"strategy:{cfg['strategy']}")
+    if rel == "jit_sequence":
+        return _jit_sequence(res, case)
     field, C, tc, times = _times(case)
     if adaptive:
         # adaptive runs must terminate: drop the quadratic terms (finite-time blow-up would make the
@@ -350,4 +365,80 @@ def check_case(case):
                 du = float(np.max(np.abs(bm[..., 0, :] - sm[..., 0, :])))
                 if not du <= bound:
                     res.violate("vmap:mean_flip", f"vmap(solve)[{i}] and solve(batch[{i}]) take different step counts and differ by {du:.3e} (> {bound:.1e})")
+    return res
+
+
+def _jit_sequence(res, case):
+    """One compiled solve, called on a sequence of problems: `solve = jax.jit(f); solve(prior_A, ...); solve(prior_B, ...)` - the way the
+    documentation uses the solvers (the prior / initial condition is an *argument* of the compiled function). Every call must equal the
+    un-jitted call on the same problem and return the caller's structure."""
+    import jax
+    import jax.numpy as jnp
+
+    from probdiffeq import ivpsolve
+    from probdiffeq import probdiffeq as pd
+
+    cfg = case["cfg"]
+    fact, n = cfg["fact"], cfg["n"]
+    pair = SEQ_PAIRS[case["seq"]["pair"]]
+    if case["seq"]["swap"]:
+        pair = pair[::-1]
+    vals = np.asarray(case["seq"]["vals"], float)
+    u0_flat, k_flat = vals[:6] * 0.5, 0.25 + np.abs(vals[6:]) * 0.25
+    grid = jnp.asarray(np.asarray([0.0, 0.1, 0.25, 0.3, 0.5]))
+    ssm = lib.ssm(fact)
+    res.nontrivial = True
+    res.label("jit_sequence:" + ("same_treedef" if pair[0][0] == pair[1][0] else "other_treedef"))
+
+    def like(y, kflat):
+        """kflat (6,) arranged like the state y (structure-generic: the prior is the only structured argument of the compiled solve)."""
+        leaves, tdef = jax.tree.flatten(y)
+        out, pos = [], 0
+        for x in leaves:
+            out.append(jnp.reshape(kflat[pos : pos + x.size], x.shape))
+            pos += x.size
+        return jax.tree.unflatten(tdef, out)
+
+    def solve(prior, kflat, grid):
+        vf = pd.ode(lambda y, /, *, t: jax.tree.map(lambda yy, kk: -kk * yy + jnp.sin(t), y, like(y, kflat)), jacobian=pd.jacobian_materialize())
+        constraint = sk.make_constraint(ssm, cfg, vf)
+        solver = sk.make_solver(ssm, cfg, constraint, None)
+        strat_ok = cfg["strategy"] if cfg["strategy"] != "fixedpoint" else "filter"
+        del strat_ok
+        sol = ivpsolve.solve_fixed_grid(solver=solver)(prior, grid=grid)
+        return sol.u.mean, sol.u.std, sol.output_scale
+
+    jsolve = jax.jit(solve)
+    outs = []
+    with common.lib_call("jit(solve) on a sequence of problems"):
+        for name, shapes in pair:
+            u0, kt = _pack(name, shapes, jnp.asarray(u0_flat)), _pack(name, shapes, jnp.asarray(k_flat))
+            vf0 = pd.ode(lambda y, /, *, t, kt=kt: jax.tree.map(lambda yy, kk: -kk * yy + jnp.sin(t), y, kt), jacobian=pd.jacobian_materialize())
+            tcoeffs, _ = pd.jetexpand_ode_padded_scan(num=n - 1)(vf0, (u0,), t=grid[0])
+            prior = ssm.prior_wiener_integrated(list(tcoeffs))
+            outs.append((name, shapes, u0, prior, kt, jax.tree.map(np.asarray, jsolve(prior, jnp.asarray(k_flat), grid))))
+    N = int(grid.shape[0])
+    for name, shapes, u0, prior, kt, (mean_j, std_j, scale_j) in outs:
+        tdef = jax.tree.structure(u0)
+        for i in range(n):
+            if jax.tree.structure(mean_j[i]) != tdef:
+                res.violate("jit_sequence:structure", f"compiled solve returned structure {jax.tree.structure(mean_j[i])} for a state of structure {tdef}")
+                return res
+            for leaf, proto in zip(jax.tree.leaves(mean_j[i]), jax.tree.leaves(u0)):
+                if np.shape(leaf) != (N,) + np.shape(proto):
+                    res.violate("jit_sequence:shape", f"compiled solve returned a mean leaf of shape {np.shape(leaf)} for a state leaf of shape {np.shape(proto)} "
+                                f"(sequence {[p_[1] for p_ in pair]})")
+                    return res
+        with common.lib_call("solve (un-jitted)"):
+            mean_e, std_e, scale_e = jax.tree.map(np.asarray, solve(prior, jnp.asarray(k_flat), grid))
+        flat = lambda m: np.stack([np.concatenate([np.reshape(x, (N, -1)) for x in jax.tree.leaves(m[i])], axis=1) for i in range(n)], axis=1)  # noqa: E731
+        e = _rel_err(flat(mean_j), flat(mean_e))
+        res.metric("jit_sequence:mean/tol", e / 1e-6)
+        if not e <= 1e-6:
+            res.violate("jit_sequence:mean" + (":gross" if e > 1e-4 else ""), f"jit(solve) on the {'second' if (name, shapes) == tuple(pair[1]) else 'first'} problem of the sequence "
+                        f"{[p_[1] for p_ in pair]} differs from the un-jitted solve by {e:.3e}")
+        # the initial value must come back as the first row
+        e0 = _rel_err(flat(mean_j)[0, 0], u0_flat)
+        if not e0 <= 1e-9:
+            res.violate("jit_sequence:initial_value", f"first row of the compiled solve is not the initial value (diff {e0:.3e})")
     return res
